@@ -4,6 +4,7 @@ import (
 	"fmt"
 	"go/ast"
 	"go/token"
+	"go/types"
 	"strings"
 
 	"golang.org/x/tools/go/ssa"
@@ -326,16 +327,37 @@ func ruleHandlerNeverNil(c *Ctx, rule string) {
 		c.undecided(rule, "generateStmts:handler", "cannot find the Stmt invocation that receives the error handler")
 		return
 	}
-	ph, ok := handler.(*ssa.Phi)
-	if !ok {
-		c.undecided(rule, "generateStmts:handler", "handler is not selected by a switch: "+describe(handler))
-		return
-	}
 	_ = use
-	// evaluate which value the phi takes under each assignment: interpret to the phi's block
-	rows, ids, err := truthTable(L, fn.Blocks[0], ph.Block().Instrs[len(ph.Block().Instrs)-1], ph)
-	if err != "" {
-		c.undecided(rule, "generateStmts:handler-table", err)
+	var rows []tableRow
+	var ids []string
+	if ph, ok := handler.(*ssa.Phi); ok {
+		// evaluate which value the phi takes under each assignment: interpret to the phi's block
+		var err string
+		rows, ids, err = truthTable(L, fn.Blocks[0], ph.Block().Instrs[len(ph.Block().Instrs)-1], ph)
+		if err != "" {
+			c.undecided(rule, "generateStmts:handler-table", err)
+			return
+		}
+	} else if factory := handlerFactory(fn); factory != nil {
+		// the selection lives in a helper that receives this injector: one table per return of the helper
+		c.seen(fnName(factory))
+		idSet := map[string]bool{}
+		for _, r := range returnsOf(factory) {
+			rs, is, err := truthTable(L, factory.Blocks[0], r, r.Results[0])
+			if err != "" {
+				c.undecided(rule, "generateStmts:handler-table", err)
+				return
+			}
+			rows = append(rows, rs...)
+			for _, id := range is {
+				if !idSet[id] {
+					idSet[id] = true
+					ids = append(ids, id)
+				}
+			}
+		}
+	} else {
+		c.undecided(rule, "generateStmts:handler", "handler is not selected by a switch: "+describe(handler))
 		return
 	}
 	var ire string
@@ -411,6 +433,11 @@ func ruleErrorFlow(c *Ctx, rule string, c06, c07, c08 bool) {
 	injectorLevel := map[*ssa.Function]bool{}
 	for _, a := range gs.AnonFuncs {
 		injectorLevel[a] = true
+	}
+	if factory := handlerFactory(gs); factory != nil {
+		for _, a := range factory.AnonFuncs {
+			injectorLevel[a] = true
+		}
 	}
 	// dynamic calls of the handler parameter
 	var handlerCalls []*ssa.Call
@@ -717,6 +744,12 @@ func ruleContextThreaded(c *Ctx, rule string) {
 						}
 					}
 				}
+				// the library form of the same scan: slices.ContainsFunc(injector.Args, func(a) bool { return isContextType(a.Type) })
+				if !ok {
+					if ok2, why2 := containsFuncOver(L, cs.arg(1), "field:internal/kessoku.Injector.Args(", "isContextType", "internal/kessoku.InjectorArgument.Type"); ok2 {
+						ok, pred, why = true, true, why2
+					}
+				}
 				c.check(ok && pred, rule, "channelsWait:hasCtx", L.pos(cs.instr.Pos()), "a wait gets its ctx.Done() escape whenever some injector argument is a context.Context", why)
 			}
 		}
@@ -776,4 +809,115 @@ func ruleContextThreaded(c *Ctx, rule string) {
 		}
 		c.check(okGate, rule, "injectContextArg:gate", L.pos(ica.Pos()), "the context is injected whenever a scheduled provider is Async", "hasAsyncProviders() == true does not take the early return")
 	}
+}
+
+// containsFuncOver accepts v == slices.ContainsFunc(<slice>, pred) (or slices.IndexFunc(...) >= 0 / != -1) where the slice's
+// origin term contains sliceTerm and pred returns exactly predFn(elem.<field>) for its parameter.
+func containsFuncOver(L *Loaded, v ssa.Value, sliceTerm, predFn, fieldK string) (bool, string) {
+	v = resolve(v)
+	var call *ssa.Call
+	switch x := v.(type) {
+	case *ssa.Call:
+		call = x
+	case *ssa.BinOp:
+		cst, isC := x.Y.(*ssa.Const)
+		inner, isCall := resolve(x.X).(*ssa.Call)
+		if !isC || !isCall || cst.Value == nil {
+			return false, ""
+		}
+		cal := inner.Common().StaticCallee()
+		if cal == nil || fnPkgPath(cal) != "slices" || !strings.HasPrefix(cal.Name(), "IndexFunc") {
+			return false, ""
+		}
+		n := cst.Int64()
+		if !((x.Op == token.GEQ && n == 0) || (x.Op == token.NEQ && n == -1) || (x.Op == token.GTR && n == -1)) {
+			return false, ""
+		}
+		call = inner
+	default:
+		return false, ""
+	}
+	cal := call.Common().StaticCallee()
+	if cal == nil || fnPkgPath(cal) != "slices" || len(call.Common().Args) != 2 {
+		return false, ""
+	}
+	if _, isB := v.(*ssa.Call); isB && !strings.HasPrefix(cal.Name(), "ContainsFunc") {
+		return false, ""
+	}
+	s := newSym(L, map[string]bool{})
+	if !strings.Contains(strings.Join(s.eval(call.Common().Args[0]), "|"), sliceTerm) {
+		return false, "the scanned slice is " + strings.Join(s.eval(call.Common().Args[0]), "|")
+	}
+	var pf *ssa.Function
+	switch p := resolve(call.Common().Args[1]).(type) {
+	case *ssa.MakeClosure:
+		pf = p.Fn.(*ssa.Function)
+	case *ssa.Function:
+		pf = p
+	}
+	if pf == nil || len(pf.Params) != 1 {
+		return false, "predicate is not a function literal"
+	}
+	rets := returnsOf(pf)
+	if len(rets) != 1 || len(rets[0].Results) != 1 {
+		return false, "predicate has several returns"
+	}
+	pc, isCall := resolve(rets[0].Results[0]).(*ssa.Call)
+	if !isCall || pc.Common().StaticCallee() == nil || pc.Common().StaticCallee().Name() != predFn || len(pc.Common().Args) != 1 {
+		return false, "predicate does not return " + predFn + "(…)"
+	}
+	u, isU := pc.Common().Args[0].(*ssa.UnOp)
+	if !isU {
+		return false, "predicate argument is not a field load"
+	}
+	fa, isF := u.X.(*ssa.FieldAddr)
+	if !isF || fieldKey(fa) != fieldK || resolve(fa.X) != ssa.Value(pf.Params[0]) {
+		return false, "predicate does not test " + fieldK + " of its element"
+	}
+	return true, cal.Name() + " over " + sliceTerm + "…) with predicate " + predFn + "(elem." + fieldK + ")"
+}
+
+// fnPkgPath is the package path of a function, looking through generic instantiation.
+func fnPkgPath(f *ssa.Function) string {
+	if f.Origin() != nil {
+		f = f.Origin()
+	}
+	if f.Pkg != nil {
+		return f.Pkg.Pkg.Path()
+	}
+	if o := f.Object(); o != nil && o.Pkg() != nil {
+		return o.Pkg().Path()
+	}
+	return ""
+}
+
+// handlerFactory: when generateStmts obtains the injector-level error handler from a helper (`h := f(injector)`), the helper.
+// The helper must be a module function that receives generateStmts' own injector and returns the handler type.
+func handlerFactory(gs *ssa.Function) *ssa.Function {
+	for _, cs := range callsIn(gs) {
+		if !(cs.common.IsInvoke() && cs.common.Method.Name() == "Stmt" && len(cs.common.Args) == 3) {
+			continue
+		}
+		call, ok := resolve(cs.common.Args[2]).(*ssa.Call)
+		if !ok {
+			continue
+		}
+		cal := call.Common().StaticCallee()
+		if cal == nil || cal.Pkg != gs.Pkg || len(cal.Blocks) == 0 {
+			continue
+		}
+		if _, isSig := cal.Signature.Results().At(0).Type().Underlying().(*types.Signature); cal.Signature.Results().Len() != 1 || !isSig {
+			continue
+		}
+		passes := false
+		for _, a := range call.Common().Args {
+			if p, isP := resolve(a).(*ssa.Parameter); isP && p.Parent() == gs && strings.HasSuffix(p.Type().String(), "internal/kessoku.Injector") {
+				passes = true
+			}
+		}
+		if passes {
+			return cal
+		}
+	}
+	return nil
 }
